@@ -212,6 +212,17 @@ func (it *Interp) value(expr string) any {
 	it.Counts = map[string]int{} // touching globals must not count constructions
 	g := it.glob(r.Pkg)
 	it.Counts = saved
+	if r.Deref {
+		// `*pkg.Ptr`: the value the pointer refers to
+		switch r.Sym {
+		case "GlobalPtr":
+			return *g.GlobalPtr
+		case "Box.Ptr":
+			return *g.BoxPtr
+		}
+		it.Unknown = "*" + r.Sym
+		return nil
+	}
 	switch r.Sym {
 	case "Global":
 		if r.Ptr {
